@@ -105,8 +105,9 @@ def run_impl(hists, impl, wd, jobs=8, batch=30, tag='b'):
             t1, b1 = G.batch_script([h])
             r1 = S.run_script(t1, impl_path(impl), None, wd, '%s%d-%d' % (tag, bi, i), want_model=False, timeout=60)
             for attempt in range(2):
-                if (r1.hang or r1.crash) and not r1.impl and slow_retries[0] > 0:
-                    # nothing was logged: the harness never started (launcher failure); patient retry
+                if (r1.hang or (r1.crash and not r1.impl)) and slow_retries[0] > 0:
+                    # watchdog on a loaded machine, or nothing was logged (the harness never started):
+                    # patient retries; a genuine deadlock hangs again and is reported
                     slow_retries[0] -= 1
                     r1 = S.run_script(t1, impl_path(impl), None, wd, '%s%d-%dr%d' % (tag, bi, i, attempt), want_model=False, timeout=240)
             try:
